@@ -145,6 +145,7 @@ def run(rep, facts, tier):
     rep.check(ok, 'R01.14', 'process_received_data/reception-recorded', 'proxy found => received_changes_add(writer_sn) before make_cache_change, on every path',
               'process_received_data can store a sample of a matched writer without recording its sequence number in the writer proxy: the reliable frontier never passes it', pr.where())
     rule_stored(rep, fx)
+    rule_marker_ownership(rep, fx)
     # R01.16 / R01.17: the way from the datagram to this Reader (shared with C02 R02.24 / R02.25)
     from rules import dispatch
     dispatch.run_rule(rep, fx, 'R01.16', 'default', floor=1)
@@ -232,6 +233,8 @@ def run(rep, facts, tier):
     # handed to the topic cache is ack_base, so a frontier that runs ahead of what was received or declared unavailable hands over sample n before a lower one)
     from rdv import report as _report
     _report.borrow(rep, facts, tier, 'C03', {'R03.1': 'R01.11', 'R03.11': 'R01.12', 'R03.12': 'R01.13'})
+    # a key-hash-only change that cannot be resolved is skipped by the DataReader and its number is never handed over (seed C01f was reported by ./check C08 only)
+    _report.borrow(rep, facts, tier, 'C08', {'R08.15': 'R01.20'})
 
     # ------------------------------------------------------------ R01.7 (shared with C14 R14.5)
     from rules import numberset
@@ -526,3 +529,50 @@ def _unref(t):
     while isinstance(t, tuple) and t and t[0] in ('ref', 'deref', 'copy') and len(t) > 1 and isinstance(t[1], tuple):
         t = t[1]
     return t
+
+
+def rule_marker_ownership(rep, fx):
+    """Whose frontier is the marker? (raised F25, a known finding: one TopicCache per topic name serves every Reader of the participant, and the marker in it is keyed
+    by the writer alone.)"""
+    rep.rule('R01.19', 'the reliable marker a DataReader is served by is the frontier of its own Reader: either a TopicCache is never shared between Readers, or the cell '
+                       'mark_reliably_received_before writes is keyed by something that identifies the Reader as well as the writer. Decided structurally: DDSCache hands out one '
+                       'Arc per topic name (entry(..).or_insert(..) followed by clone()), the callers of mark_reliably_received_before pass the frontier of a Reader-local writer '
+                       'proxy, and the key of the insert is compared with the parameters of the function')
+    ac = fx.find('structure::dds_cache::DDSCache::add_new_topic')
+    rep.analysed(ac)
+    og = Origins(ac, summaries=False)
+    shared = any(callee_res(t).rsplit('::', 1)[-1] in ('or_insert', 'or_insert_with', 'or_default') for _, t in ac.calls()) and \
+        term_has(og.of_local(0, ac.return_blocks()[0], 'term'), lambda x: x[0] == 'call' and x[1].rsplit('::', 1)[-1] in ('or_insert', 'or_insert_with', 'or_default', 'entry'))
+    mk = fx.find('structure::dds_cache::TopicCache::mark_reliably_received_before')
+    ogm = Origins(mk, summaries=False)
+    key_params = set()
+    n_ins = 0
+    for bb, t in mk.calls():
+        if callee_res(t).endswith('::insert') and has_field(ogm.of_operand(t['args'][0], bb, 'term'), 'received_reliably_before'):
+            n_ins += 1
+            k = ogm.of_operand(t['args'][1], bb, 'term')
+            key_params |= {x[1] for x in term_leaves(k) if x[0] == 'param'}
+    names = param_names(mk)
+    # value = frontier of a proxy owned by the calling Reader
+    local_frontier = 0
+    for b in fx.bodies:
+        if not b.key.startswith('rtps::reader::Reader::'):
+            continue
+        ogb = None
+        for bb, t in b.calls():
+            if call_matches(t, 'TopicCache::mark_reliably_received_before'):
+                ogb = ogb or Origins(b, summaries=True)
+                v = ogb.of_operand(t['args'][2], bb, 'term')
+                if b.kind == 'closure':
+                    v = resolve_captures(fx, b, v, summaries=True)
+                if term_has(v, lambda x: (x[0] == 'field' and x[1] == 'ack_base') or (x[0] == 'call' and x[1].endswith('all_ackable_before'))):
+                    local_frontier += 1
+    only_writer = n_ins >= 1 and key_params <= {k for k, v in names.items() if v in ('writer', 'writer_guid')}
+    ok = not (shared and only_writer and local_frontier > 0)
+    rep.check(ok, 'R01.19', 'TopicCache::mark_reliably_received_before/marker-shared-by-readers',
+              'cache per Reader, or marker keyed by (reader, writer)',
+              'the reliable marker is one cell per writer in a TopicCache that every Reader of the topic in the participant shares (DDSCache::add_new_topic returns the existing '
+              'Arc), and %d call sites store the frontier of their own writer proxy into it: a GAP or HEARTBEAT that moves one Reader forward (a GAP addressed to that Reader only, '
+              'e.g. for samples written for another reader, or a late joiner) makes every other DataReader of the topic skip samples it has not received yet, and a slower Reader '
+              'moves the marker back' % local_frontier, mk.where())
+    rep.floor('R01.19', local_frontier, 4, 'mark_reliably_received_before call sites in rtps::Reader fed from the Reader\'s own writer proxy')
